@@ -172,7 +172,7 @@ fn op_strategy() -> impl Strategy<Value = Op> {
             target_sel_strategy(),
             any::<u16>(),
             prop_oneof![4 => Just(None), 1 => mid_strategy().prop_map(Some)],
-            prop_oneof![5 => Just(None), 1 => (1u8..=12).prop_map(Some)],
+            prop_oneof![10 => Just(None), 2 => (1u8..=12).prop_map(Some), 1 => (128u8..=134).prop_map(Some)],
             (any::<u16>(), any::<u16>())
         )
             .prop_map(|(sel, raw, mid, crash, beacons)| Op::Import { sel, raw, mid, crash, beacons }),
@@ -691,7 +691,18 @@ impl Run {
             n.scheduled = mid.clone();
         }
         if let Some(j) = crash {
-            self.sut().store.arm(j as u32);
+            // 128..: the (j - 127)-th mutating call is struck INSIDE when it stores blocks with transactions
+            // 64..=127: a TRANSIENT failure of the (j - 63)-th mutating call: the process goes on and imports again. NOT
+            // generated: the statement quantifies over restarts, not over failed calls survived by the process (tried:
+            // the unchanged importer loses a roll-back whose application failed, because the connection's read pointer
+            // has moved past it - outside the property, recorded in DESIGN.md)
+            if j >= 128 {
+                self.sut().store.arm_inside((j - 127) as u32)
+            } else if j >= 64 {
+                self.sut().store.arm((j - 63) as u32)
+            } else {
+                self.sut().store.arm(j as u32)
+            }
         }
         let was_fork = self.fork_since_import;
         let was_restart_since_fork = self.restart_since_fork;
@@ -773,7 +784,18 @@ impl Run {
                 let msg = format!("{e:#}");
                 if fired && msg.contains(INJECTED) {
                     self.labels.insert("crash-injected".into());
+                    if msg.contains("inside store_blocks_and_transactions") {
+                        self.labels.insert("crash-injected-inside-a-store-call".into());
+                    }
                     self.shape.push(format!("Ic{tag}"));
+                    if crash.is_some_and(|j| (64..128).contains(&j)) {
+                        // transient: same process, same connection, same in-memory state
+                        self.labels.insert("transient-store-failure-then-retry".into());
+                        if was_fork || ev.mid_fork_applied.is_some() {
+                            self.fork_since_import = true;
+                        }
+                        return Verdict::Ok;
+                    }
                     self.restart();
                     if was_fork || ev.mid_fork_applied.is_some() {
                         self.fork_since_import = true;
@@ -972,6 +994,7 @@ pub fn run(args: &Args) -> i32 {
         .require_label("restart-between-fork-and-import")
         .require_label("restart-with-stale-resume-point")
         .require_label("crash-injected")
+        .require_label("crash-injected-inside-a-store-call")
         .require_label("mid-import-fork")
         .require_label("earlier-beacon-compared")
         .require_label("stack:bare-importer")
